@@ -34,6 +34,10 @@ def f32bits(x):
     return struct.unpack("<I", struct.pack("<f", x))[0]
 
 
+def bits_f32(b):
+    return struct.unpack("<f", struct.pack("<I", b))[0]
+
+
 def f64bits(x):
     return struct.unpack("<Q", struct.pack("<d", x))[0]
 
@@ -57,7 +61,7 @@ def val_token(v, enc):
     return "v" + str(enc(v))
 
 
-BIG = False     # also probe indices outside the ssize_t range (token big=1 of the case)
+BIG = True      # indices outside the ssize_t range are probed on every case (repaired defect F33)
 
 
 def index_set(n, has_index):
@@ -205,7 +209,11 @@ def make_scoring(lib, f, prot):
     abc = PROT if prot else DNA
     rows = parse_rows(f.get("rows", ""))
     omit = f.get("omit", "")
-    pssm = lib.ScoringMatrix(columns_dict(rows, abc, omit, q8), protein=bool(prot))
+    if "bg" in f:       # background frequencies as f32 bit patterns, one per symbol (wildcard included)
+        bgd = dict((s, bits_f32(int(b))) for s, b in zip(abc, f["bg"].split(",")))
+        pssm = lib.ScoringMatrix(columns_dict(rows, abc, omit, q8), bgd, protein=bool(prot))
+    else:
+        pssm = lib.ScoringMatrix(columns_dict(rows, abc, omit, q8), protein=bool(prot))
     logical = [[f32bits(0.0 if abc[k] in omit else q8(r[k])) for k in range(len(abc))] for r in rows]
     if f.get("rc") == "1":
         pssm = pssm.reverse_complement()
@@ -228,30 +236,37 @@ def weights_logical(rows, K):
     return res
 
 
-def dist_logical(logical_bits, K):
-    """ScoreDistribution::from(pssm): the survival function, in f64, same order of operations"""
-    rows = [[struct.unpack("<f", struct.pack("<I", b))[0] for b in r] for r in logical_bits]
+def uniform_bg(K):
+    return [f32(1.0 / f32(float(K - 1))) if k != K - 1 else 0.0 for k in range(K)]
+
+
+def dist_logical(logical_bits, K, bg):
+    """ScoreDistribution::from(pssm) (dist.rs as repaired: fractional scale when the score
+    range exceeds CDF_RANGE, f64 offset, last entry clipped to 1): the survival function,
+    in f64, same order of operations; bg = background frequencies (f32 values)"""
+    import math
+    rows = [[bits_f32(b) for b in r] for r in logical_bits]
     fin = [x for r in rows for x in r if x not in (float("inf"), float("-inf"))]
     small, large = min(fin), max(fin)
     if small == large:
         small = large - 1.0
-    import math
-    offset = math.floor(small)
-    scale = math.floor(1000.0 / (large - offset))
+    offset = float(math.floor(small))
+    scale = float(math.floor(1000.0 / (large - offset)))
+    if scale == 0.0:
+        scale = 1000.0 / (large - offset)
     I32MIN = -2 ** 31
 
-    def rnd(x):
+    def rnd(x):          # f64::round (half away from zero) then `as i32` (saturating, NaN -> 0)
         if x != x:
             return 0
         if x == float("inf"):
             return 2 ** 31 - 1
         if x == float("-inf"):
             return I32MIN
-        r = math.floor(abs(x) + 0.5)
+        r = math.floor(abs(x) + 0.5) if abs(x) < 2.0 ** 52 else abs(x)
         r = r if x >= 0 else -r
         return max(I32MIN, min(2 ** 31 - 1, int(r)))
-    data = [[rnd((x - float(offset)) * scale) for x in r] for r in rows]
-    bg = [f32(1.0 / f32(float(K - 1))) if k != K - 1 else 0.0 for k in range(K)]
+    data = [[rnd((x - offset) * scale) for x in r] for r in rows]
     rng_ = 1000
     size = len(data) * rng_ + 1
     old = [0.0] * size
@@ -271,6 +286,7 @@ def dist_logical(logical_bits, K):
                     if o != 0.0:
                         new[k + s] += o * b
     sf = new
+    sf[-1] = min(sf[-1], 1.0)
     for i in range(len(sf) - 2, -1, -1):
         p = sf[i] + sf[i + 1]
         sf[i] = min(p, 1.0)
@@ -303,8 +319,6 @@ def run_case(lib, line):
     toks = line.split(" ")
     f = dict(t.split("=", 1) for t in toks[1:] if "=" in t)
     cls = f["cls"]
-    global BIG
-    BIG = f.get("big") == "1"
     prot = int(f.get("prot", "0"))
     K = 21 if prot else 5
     ident = lambda x: x
@@ -393,7 +407,8 @@ def run_case(lib, line):
     if cls == "dist":
         pssm, logical = make_scoring(lib, f, prot)
         d = pssm.score_distribution
-        sf = dist_logical(logical, K)
+        bg = [bits_f32(int(b)) for b in f["bg"].split(",")] if "bg" in f else uniform_bg(K)
+        sf = dist_logical(logical, K, bg)
         if f.get("again") == "1":      # the cached distribution object must be the same data
             d = pssm.score_distribution
         return "obj=seq:%s %s views=@%s" % (",".join(map(str, sf)), observe_index(d, 0, False, f64bits),
@@ -478,6 +493,34 @@ def rand_score_rows(rng, M, K):
     return rows
 
 
+def rand_background(rng, K):
+    """None (uniform default) or background frequencies Background::new accepts: every entry in
+    [0, 1] and the f32 sum (in symbol order) exactly 1.0 — which the real sum may exceed slightly"""
+    r = rng.random()
+    if r < 0.5:
+        return None
+    n = K - 1
+    if r < 0.65:        # dyadic, non-uniform, no wildcard mass
+        bg = [1.0 / n] * n if n == 4 else [1.0 / 32] * 16 + [1.0 / 8] * 4
+        if n == 4:
+            bg = [0.5, 0.25, 0.125, 0.125]
+        rng.shuffle(bg)
+        bg = bg + [0.0]
+    elif r < 0.8:       # wildcard mass
+        bg = ([0.25, 0.25, 0.25, 0.125] if n == 4 else [1.0 / 32] * 16 + [1.0 / 8] * 3 + [1.0 / 16]) + [1.0 / 8 if n == 4 else 1.0 / 16]
+    else:               # real sum slightly above 1, f32 sum still 1.0: one entry bumped by an ulp or two
+        bg = ([0.25] * 4 if n == 4 else [1.0 / 32] * 16 + [1.0 / 8] * 4) + [0.0]
+        j = rng.randrange(n)
+        bg[j] = bits_f32(f32bits(bg[j]) + rng.choice([1, 1, 2]))
+    bg = [f32(x) for x in bg]
+    tot = 0.0
+    for x in bg:
+        tot = f32(tot + x)
+    if tot != 1.0 or any(not (0.0 <= x <= 1.0) for x in bg):
+        return None
+    return bg
+
+
 def rand_omit(rng, abc):
     if rng.random() < 0.6:
         return ""
@@ -547,7 +590,21 @@ def gen(seed, n, tier):
             M = rng.choice([1, 1, 2, 3])
             rows = rand_score_rows(rng, M, K)
             rows[0][0] = str(rng.randrange(-64, 65))
+            r = rng.random()
+            if r < 0.2:         # score range beyond CDF_RANGE = 1000: fractional scale
+                rows[rng.randrange(M)][rng.randrange(K - 1)] = str(rng.choice([8001, 8800, 16000, 80000, -9000, 12345]))
+            elif r < 0.3:       # very large scores: the offset does not fit an i32
+                big = rng.choice([24000000000, -24000000000, 32000000000])
+                rows[0][0] = str(big)
+                if rng.random() < 0.5:
+                    rows[0][1] = str(big + 8 * rng.choice([256, 512, 1024]))
+            elif r < 0.45:      # constant matrix: all the mass on the last entry
+                v = str(rng.randrange(-64, 65))
+                rows = [[v if k < K - 1 or rng.random() < 0.5 else "i" for k in range(K)] for _ in range(M)]
             t.append("rows=" + rows_token(rows))
+            bg = rand_background(rng, K)
+            if bg:
+                t.append("bg=" + ",".join(str(f32bits(x)) for x in bg))
             if rng.random() < 0.3:
                 t.append("again=1")
         elif cls == "scores":
